@@ -1,7 +1,7 @@
 /- C20 helpers: every event preserves the invariant -/
 import Iggy.Sdk.Lemmas.Inv
 namespace Iggy.Sdk
-variable {cfg : CCfg} {pid : Nat} {strat0 : Strat} {srv0 : Srv}
+variable {rew : Bool} {cfg : CCfg} {pid : Nat} {strat0 : Strat} {srv0 : Srv}
 
 theorem stratOK_pop (hg : Good cfg strat0) {c : Cons} {a l b : Nat} (h : StratOK strat0 c a l (b + 1)) (c' : Cons)
     (hs : c'.strat = if b = 0 then nextStrat c.strat (l + 1) else c.strat) :
@@ -49,8 +49,8 @@ theorem StratOK.congr {c c' : Cons} {a l b : Nat} (h : StratOK strat0 c a l b) (
     StratOK strat0 c' a l b := by
   cases strat0 <;> simp_all [StratOK]
 
-theorem Inv.pop (hg : Good cfg strat0) (h : Inv cfg pid strat0 srv0 sys tr) :
-    Inv cfg pid strat0 srv0 (step cfg pid strat0 sys .pop).1 (tr ++ (step cfg pid strat0 sys .pop).2) := by
+theorem Inv.pop (hg : Good cfg strat0) (h : Inv rew cfg pid strat0 srv0 sys tr) :
+    Inv rew cfg pid strat0 srv0 (step cfg pid strat0 sys .pop).1 (tr ++ (step cfg pid strat0 sys .pop).2) := by
   obtain ⟨c, s⟩ := sys
   cases h.phase with
   | fresh hi hc hb hp hs hst =>
@@ -87,14 +87,14 @@ theorem Inv.pop (hg : Good cfg strat0) (h : Inv cfg pid strat0 srv0 sys tr) :
           · have := hp e he; rw [hi] at this; exact ⟨this.1, by simp [this.2]⟩
           · exact hnew _ he
           · exact hnew _ he
-        · intro hn hm
-          obtain ⟨v, hv, hor⟩ := hC hn hm
+        · intro hrw hn hm
+          obtain ⟨v, hv, hor⟩ := hC hrw hn hm
           refine ⟨v, hv, ?_⟩
           rcases hor with ⟨hv0, _⟩ | hsv
           · exact Or.inl ⟨hv0, fun h0 => absurd h0 (by omega)⟩
           · exact Or.inr hsv
-        · intro hn hpol
-          obtain ⟨hpe, hbb, so, hso', hle⟩ := hP hn hpol
+        · intro hrw hn hpol
+          obtain ⟨hpe, hbb, so, hso', hle⟩ := hP hrw hn hpol
           refine ⟨?_, by omega, so, hso', by omega⟩
           simp [hpe, polling_commitNow hpol, polling_afterAll hpol]
       · refine h.g.yield ⟨pid, msgAt (a + n + 1)⟩ rfl rfl (by simp; omega) ?_ ?_ ?_
@@ -103,10 +103,10 @@ theorem Inv.pop (hg : Good cfg strat0) (h : Inv cfg pid strat0 srv0 sys tr) :
         · rw [lastYield_going hi]; rfl
 
 /-- a background store of an offset this incarnation yielded (in polling mode: the consumed one) -/
-theorem Inv.storeOne {c : Cons} {s : Srv} {tr : List Obs} (h : Inv cfg pid strat0 srv0 (c, s) tr)
+theorem Inv.storeOne {c : Cons} {s : Srv} {tr : List Obs} (h : Inv rew cfg pid strat0 srv0 (c, s) tr)
     (pend' : List (Nat × Nat)) (hsub : ∀ e ∈ pend', e ∈ c.pending) (o : Nat) (ho : o ∈ offsOf (curInc tr))
-    (hpo : strat0 = .next → cfg.polling = true → c.consumed = [(pid, o)]) :
-    Inv cfg pid strat0 srv0
+    (hpo : rew = false → strat0 = .next → cfg.polling = true → c.consumed = [(pid, o)]) :
+    Inv rew cfg pid strat0 srv0
       ((storeOne { c with pending := pend' } s pid o).1, (storeOne { c with pending := pend' } s pid o).2.1)
       (tr ++ (storeOne { c with pending := pend' } s pid o).2.2) := by
   cases h.phase with
@@ -126,31 +126,31 @@ theorem Inv.storeOne {c : Cons} {s : Srv} {tr : List Obs} (h : Inv cfg pid strat
       refine ⟨.going a n b hi' hc hcp hb hlen ?_ (hst.congr rfl) ?_ ?_ ?_, h.g.store o (offsOf_curInc_sub tr o ho)⟩
       · intro _ so hso'; simp at hso'; omega
       · intro e he; rw [hi', ← hi]; exact hp e (hsub e he)
-      · intro hn hm
-        obtain ⟨v, hv, _⟩ := hC hn hm
+      · intro hrw hn hm
+        obtain ⟨v, hv, _⟩ := hC hrw hn hm
         exact ⟨o, by simp [touched, hv], Or.inr rfl⟩
-      · intro hn hpol
-        obtain ⟨hpe, hbb, so, hso', hle⟩ := hP hn hpol
-        have := hpo hn hpol
+      · intro hrw hn hpol
+        obtain ⟨hpe, hbb, so, hso', hle⟩ := hP hrw hn hpol
+        have := hpo hrw hn hpol
         rw [hc] at this
         have e : o = a + n := by simpa using this.symm
         exact ⟨hpe' hpe, hbb, o, rfl, by omega⟩
     · rw [storeOne_skip _ s pid o (by omega) (by omega)]
       simp only [List.append_nil]
       refine ⟨.going a n b hi hc hcp hb hlen hso (hst.congr rfl) (fun e he => hp e (hsub e he)) ?_ ?_, h.g⟩
-      · intro hn hm
-        obtain ⟨v, hv, hor⟩ := hC hn hm
+      · intro hrw hn hm
+        obtain ⟨v, hv, hor⟩ := hC hrw hn hm
         have hls : localStored { c with pending := pend' } pid = v := by simp [localStored, hv]
         refine ⟨v, by simp [touched, hv], ?_⟩
         rcases hor with ⟨hv0, _⟩ | hsv
         · omega
         · exact Or.inr hsv
-      · intro hn hpol
-        obtain ⟨hpe, hbb, so, hso', hle⟩ := hP hn hpol
+      · intro hrw hn hpol
+        obtain ⟨hpe, hbb, so, hso', hle⟩ := hP hrw hn hpol
         exact ⟨hpe' hpe, hbb, so, hso', hle⟩
 
-theorem Inv.deliver (h : Inv cfg pid strat0 srv0 sys tr) :
-    Inv cfg pid strat0 srv0 (step cfg pid strat0 sys .deliver).1 (tr ++ (step cfg pid strat0 sys .deliver).2) := by
+theorem Inv.deliver (h : Inv rew cfg pid strat0 srv0 sys tr) :
+    Inv rew cfg pid strat0 srv0 (step cfg pid strat0 sys .deliver).1 (tr ++ (step cfg pid strat0 sys .deliver).2) := by
   obtain ⟨c, s⟩ := sys
   simp only [step]
   cases hpe : c.pending with
@@ -165,12 +165,12 @@ theorem Inv.deliver (h : Inv cfg pid strat0 srv0 sys tr) :
       simp only at hpo
       obtain ⟨rfl, ho⟩ := hpo
       refine h.storeOne rest (by intro e he; simp [hpe, he]) o ho ?_
-      intro hn hpol
-      have := (hP hn hpol).1
+      intro hrw hn hpol
+      have := (hP hrw hn hpol).1
       simp only at this; rw [this] at hpe; cases hpe
 
-theorem Inv.tick (h : Inv cfg pid strat0 srv0 sys tr) :
-    Inv cfg pid strat0 srv0 (step cfg pid strat0 sys .tick).1 (tr ++ (step cfg pid strat0 sys .tick).2) := by
+theorem Inv.tick (h : Inv rew cfg pid strat0 srv0 sys tr) :
+    Inv rew cfg pid strat0 srv0 (step cfg pid strat0 sys .tick).1 (tr ++ (step cfg pid strat0 sys .tick).2) := by
   obtain ⟨c, s⟩ := sys
   simp only [step]
   by_cases hi : cfg.interval
@@ -183,7 +183,7 @@ theorem Inv.tick (h : Inv cfg pid strat0 srv0 sys tr) :
       simp only at hc hi
       simp only [hc, storeMany, List.append_nil]
       have := h.storeOne c.pending (fun e he => he) (a + n) (by rw [hi]; simp [List.mem_range'])
-        (fun _ _ => hc)
+        (fun _ _ _ => hc)
       exact this
   · simp only [hi, Bool.false_eq_true, ↓reduceIte, List.append_nil]; exact h
 
@@ -215,10 +215,10 @@ theorem lastYield_fresh {tr : List Obs} (hi : offsOf (curInc tr) = []) : lastYie
   rw [lastYield, hi]; rfl
 
 theorem Inv.poll_fresh (hg : Good cfg strat0) {c : Cons} {s : Srv} {tr : List Obs}
-    (h : Inv cfg pid strat0 srv0 (c, s) tr)
+    (h : Inv rew cfg pid strat0 srv0 (c, s) tr)
     (hi : offsOf (curInc tr) = []) (hc : c.consumed = []) (hb : c.buffered = []) (hp : c.pending = [])
     (hs : c.stored = []) (hst : c.strat = strat0) :
-    Inv cfg pid strat0 srv0 (step cfg pid strat0 (c, s) .poll).1 (tr ++ (step cfg pid strat0 (c, s) .poll).2) := by
+    Inv rew cfg pid strat0 srv0 (step cfg pid strat0 (c, s) .poll).1 (tr ++ (step cfg pid strat0 (c, s) .poll).2) := by
   rw [step_poll cfg pid strat0 c s hb _ _ rfl rfl]
   rw [hst, start_fresh hg]
   generalize hst' : firstOff strat0 s.stored = st
@@ -262,7 +262,7 @@ theorem Inv.poll_fresh (hg : Good cfg strat0) {c : Cons} {s : Srv} {tr : List Ob
     refine ⟨.going st 0 k hinc rfl rfl (by simp) (by simp [hs1len]; omega) ?_ ?_ ?_ ?hC ?hP,
       g1.yield ⟨pid, msgAt st⟩ rfl rfl (by simp [hs1len]; omega) ?_ ?_ ?_⟩
     case hC =>
-      intro _ hm
+      intro _ _ hm
       refine ⟨0, rfl, Or.inl ⟨rfl, ?_⟩⟩
       intro h0
       have hst0 : st = 0 := by omega
@@ -273,7 +273,7 @@ theorem Inv.poll_fresh (hg : Good cfg strat0) {c : Cons} {s : Srv} {tr : List Ob
         | zero => left; simp [haa]
         | succ k => right; exact ⟨hall, by omega⟩
     case hP =>
-      intro _ hpol
+      intro _ _ hpol
       refine ⟨?_, by omega, st + k, ?_, by omega⟩
       · simp [polling_commitNow hpol, polling_afterAll hpol]
       · rcases hs1st with ⟨e, _⟩ | ⟨_, e⟩
@@ -328,15 +328,15 @@ theorem Srv.store_lt (s : Srv) (o : Nat) (h : o < s.len) : s.store o = ({ s with
   simp [Srv.store, h]
 
 theorem Inv.poll_going (hg : Good cfg strat0) {c : Cons} {s : Srv} {tr : List Obs}
-    (h : Inv cfg pid strat0 srv0 (c, s) tr) (a n : Nat)
+    (h : Inv rew cfg pid strat0 srv0 (c, s) tr) (a n : Nat)
     (hi : offsOf (curInc tr) = List.range' a (n + 1)) (hc : c.consumed = [(pid, a + n)])
     (hb : c.buffered = []) (hlen : a + n < s.len)
     (hso : strat0 = .next → ∀ so, s.stored = some so → so ≤ a + n)
     (hst : StratOK strat0 c a (a + n) 0)
     (hp : ∀ e ∈ c.pending, e.1 = pid ∧ e.2 ∈ offsOf (curInc tr))
-    (hC : strat0 = .next → ConsumeMode cfg → CInv cfg pid c s (a + n) 0)
-    (hP : strat0 = .next → cfg.polling = true → PInv cfg c s (a + n) 0) :
-    Inv cfg pid strat0 srv0 (step cfg pid strat0 (c, s) .poll).1 (tr ++ (step cfg pid strat0 (c, s) .poll).2) := by
+    (hC : rew = false → strat0 = .next → ConsumeMode cfg → CInv cfg pid c s (a + n) 0)
+    (hP : rew = false → strat0 = .next → cfg.polling = true → PInv cfg c s (a + n) 0) :
+    Inv rew cfg pid strat0 srv0 (step cfg pid strat0 (c, s) .poll).1 (tr ++ (step cfg pid strat0 (c, s) .poll).2) := by
   rw [step_poll cfg pid strat0 c s hb _ _ rfl rfl]
   have hstart := start_going hg hso hst
   have hstN : strat0 = .next → s.start c.strat cfg.batch = resume s.stored := by
@@ -398,11 +398,11 @@ theorem Inv.poll_going (hg : Good cfg strat0) {c : Cons} {s : Srv} {tr : List Ob
           g1.store (a + n) ?_⟩
         · intro _ so hso'; simp at hso'; omega
         · intro e he; rw [hi2, ← hi]; exact hp e he
-        · intro hn hm
-          obtain ⟨v, hv, _⟩ := hC hn hm
+        · intro hrw hn hm
+          obtain ⟨v, hv, _⟩ := hC hrw hn hm
           exact ⟨a + n, by simp [hv], Or.inr rfl⟩
-        · intro hn hpol
-          obtain ⟨hpe, hbb, so, hso', hle⟩ := hP hn hpol
+        · intro hrw hn hpol
+          obtain ⟨hpe, hbb, so, hso', hle⟩ := hP hrw hn hpol
           exact ⟨hpe, hbb, a + n, rfl, by omega⟩
         · simp only [offsOf_append, offsOf_cons_polled, offsOf_nil, List.append_nil]
           exact offsOf_curInc_sub tr _ (by rw [hi]; exact List.mem_range'_1.mpr ⟨by omega, by omega⟩)
@@ -420,14 +420,14 @@ theorem Inv.poll_going (hg : Good cfg strat0) {c : Cons} {s : Srv} {tr : List Ob
           · rw [e] at hso'; have := hso hn so hso'; simpa using this
           · rw [e] at hso'; simp at hso' ⊢; omega
         · intro e he; rw [hi1, ← hi]; exact hp e he
-        · intro hn hm
-          obtain ⟨v, hv, hor⟩ := hC hn hm
+        · intro hrw hn hm
+          obtain ⟨v, hv, hor⟩ := hC hrw hn hm
           refine ⟨v, hv, ?_⟩
           rcases hs1st with ⟨_, e⟩ | ⟨e, _⟩
           · rw [e]; exact hor
           · rw [hm.not_polling] at e; cases e
-        · intro hn hpol
-          obtain ⟨hpe, hbb, so, hso', hle⟩ := hP hn hpol
+        · intro hrw hn hpol
+          obtain ⟨hpe, hbb, so, hso', hle⟩ := hP hrw hn hpol
           rcases hs1st with ⟨e, _⟩ | ⟨_, e⟩
           · rw [hpol] at e; cases e
           · have := hstN hn
@@ -455,8 +455,8 @@ theorem Inv.poll_going (hg : Good cfg strat0) {c : Cons} {s : Srv} {tr : List Ob
       refine ⟨.going a (n + 1) w hi2 (by simp [e1]) rfl (by simp [e1]) (by simp [hs1len]; omega) ?_ ?_ ?_ ?hC ?hP,
         g1.yield ⟨pid, msgAt (a + n + 1)⟩ rfl rfl (by simp [hs1len]; omega) ?_ ?_ ?_⟩
       case hC =>
-        intro hn hm
-        obtain ⟨v, hv, hor⟩ := hC hn hm
+        intro hrw hn hm
+        obtain ⟨v, hv, hor⟩ := hC hrw hn hm
         refine ⟨v, by simp [hm.not_polling, hv], ?_⟩
         rcases hor with ⟨hv0, _⟩ | hsv
         · exact Or.inl ⟨hv0, fun h0 => absurd h0 (by omega)⟩
@@ -464,8 +464,8 @@ theorem Inv.poll_going (hg : Good cfg strat0) {c : Cons} {s : Srv} {tr : List Ob
           · rw [e]; exact Or.inr hsv
           · rw [hm.not_polling] at e; cases e
       case hP =>
-        intro hn hpol
-        obtain ⟨hpe, hbb, so, hso', hle⟩ := hP hn hpol
+        intro hrw hn hpol
+        obtain ⟨hpe, hbb, so, hso', hle⟩ := hP hrw hn hpol
         rcases hs1st with ⟨e, _⟩ | ⟨_, e⟩
         · rw [hpol] at e; cases e
         · refine ⟨?_, by omega, st + k, e, by omega⟩
@@ -495,8 +495,8 @@ theorem Inv.poll_going (hg : Good cfg strat0) {c : Cons} {s : Srv} {tr : List Ob
           lastYield_going hi1]
         rfl
 
-theorem Inv.poll (hg : Good cfg strat0) (h : Inv cfg pid strat0 srv0 sys tr) :
-    Inv cfg pid strat0 srv0 (step cfg pid strat0 sys .poll).1 (tr ++ (step cfg pid strat0 sys .poll).2) := by
+theorem Inv.poll (hg : Good cfg strat0) (h : Inv rew cfg pid strat0 srv0 sys tr) :
+    Inv rew cfg pid strat0 srv0 (step cfg pid strat0 sys .poll).1 (tr ++ (step cfg pid strat0 sys .poll).2) := by
   obtain ⟨c, s⟩ := sys
   by_cases hbuf : c.buffered = []
   · cases h.phase with
@@ -512,8 +512,8 @@ theorem Inv.poll (hg : Good cfg strat0) (h : Inv cfg pid strat0 srv0 sys tr) :
   · have : c.buffered.isEmpty = false := by simpa using hbuf
     simp only [step, this, Bool.false_eq_true, ↓reduceIte, List.append_nil]; exact h
 
-theorem Inv.step (hg : Good cfg strat0) (h : Inv cfg pid strat0 srv0 sys tr) (e : Ev) :
-    Inv cfg pid strat0 srv0 (step cfg pid strat0 sys e).1 (tr ++ (step cfg pid strat0 sys e).2) := by
+theorem Inv.step (hg : Good cfg strat0) (h : Inv rew cfg pid strat0 srv0 sys tr) (e : Ev) :
+    Inv rew cfg pid strat0 srv0 (step cfg pid strat0 sys e).1 (tr ++ (step cfg pid strat0 sys e).2) := by
   cases e with
   | pop => exact h.pop hg
   | poll => exact h.poll hg
@@ -523,7 +523,7 @@ theorem Inv.step (hg : Good cfg strat0) (h : Inv cfg pid strat0 srv0 sys tr) (e 
   | drop => exact h.drop
 
 theorem Reach.inv (hg : Good cfg strat0) {sys : Sys} {tr : List Obs} (h : Reach cfg pid strat0 srv0 sys tr) :
-    Inv cfg pid strat0 srv0 sys tr := by
+    Inv rew cfg pid strat0 srv0 sys tr := by
   induction h with
   | init => exact Inv.init
   | step e _ ih => exact ih.step hg e
